@@ -28,6 +28,10 @@ impl ECIESCiphertext {
             return Err(BSVErrors::ECIESError(format!("Ciphertext is too short, expected at least {} bytes", min_length)));
         }
 
+        if &buffer[0..4] != b"BIE1" {
+            return Err(BSVErrors::ECIESError("Ciphertext does not start with the BIE1 magic bytes".into()));
+        }
+
         let pub_key = match has_pub_key {
             true => {
                 let pub_key_buf = &buffer[PUB_KEY_OFFSET as usize..PUB_KEY_END as usize];
